@@ -318,6 +318,44 @@ def run_multitraj(rep, tier, problems):
                     if w is None or len(w) != ntraj or any(np.shape(x)[-1] != T for x in w):
                         P("noise-record", f"wiener_process shape {[np.shape(x) for x in (w or [])]} for {T} times")
     compare_keep(by_keep, problems)
+    # measurement and noise records are aligned with the time list also when the output times are unevenly spaced: entry k
+    # belongs to the interval [t_k, t_k+1] - expectation of the measurement operator at its end (the default convention)
+    # plus the increment of that interval per unit time
+    tlu = np.array([0.0, 0.1, 0.3, 0.6, 0.65])
+    for name, het in (("ssesolve", False), ("smesolve", False), ("smesolve", True)):
+        try:
+            with core.time_limit(120):
+                ou = {"store_states": True, "store_measurement": True, "keep_runs_results": True, "dt": 0.05, "progress_bar": "", "map": "serial"}
+                cl = qutip.SSESolver if name == "ssesolve" else qutip.SMESolver
+                solver = cl(H, sc_ops=cops[:1], heterodyne=het, options=ou)
+                st0 = psi0 if name == "ssesolve" else qutip.ket2dm(psi0)
+                ru = solver.run(st0, tlu, ntraj=2, seeds=9)
+        except core.CaseTimeout:
+            raise
+        except Exception as e:
+            problems.append((f"raises:{name}", f"{name} with an uneven tlist: {type(e).__name__}: {e}"[:300]))
+            continue
+        rep.evaluations += 1
+        rep.count("uneven-measurement-record")
+        nm = len(solver.m_ops)
+        for j in range(2):
+            meas = np.asarray(ru.measurement[j]).reshape(nm, len(tlu) - 1)
+            dw = np.asarray(ru.dW[j]).reshape(nm, len(tlu) - 1)
+            wp = np.asarray(ru.wiener_process[j]).reshape(nm, len(tlu))
+            if np.abs(np.diff(wp, axis=1) - dw).max() > 1e-10:
+                problems.append((f"noise-record:{name}", f"{name} (heterodyne={het}), uneven tlist: wiener_process is not the running sum of dW"))
+                break
+            bad = False
+            for i, (mo, fac) in enumerate(zip(solver.m_ops, solver.dW_factors)):
+                ee = np.array([qutip.expect(mo, x) for x in ru.runs_states[j]])
+                want = np.real(ee[1:]) + fac * dw[i] / np.diff(tlu)
+                if np.abs(want - meas[i]).max() > 1e-8:
+                    k = int(np.argmax(np.abs(want - meas[i])))
+                    problems.append((f"measurement-record:{name}", f"{name} (heterodyne={het}), uneven tlist {tlu.tolist()}: measurement[{i}][{k}] = {meas[i][k]:.6g} but <M> + dW/dt on the interval [{tlu[k]}, {tlu[k + 1]}] is {want[k]:.6g}"))
+                    bad = True
+                    break
+            if bad:
+                break
     # the final state of a run that stores only the final state is the last state of the same run with
     # all states stored (same seeds), with and without improved sampling, with and without kept runs
     for name in ("mcsolve", "nm_mcsolve"):
